@@ -228,6 +228,13 @@ theorem arrive_back (cfg : Cfg) (p : Proc) (s : St) (t : Tok) :
       · simp
       · simp only [spawnStarts_causes]
         exact enterSub_back _ _ _ _ _
+    · split
+      · intro h
+        exact cause_back s _ (by simpa using h)
+      · simp only
+        intro h
+        have := selectFlows_back _ _ _ _ _ _ h
+        simpa using this
     · simp
 
 theorem arrive_conf (cfg : Cfg) (he : cfg.eagerSettle = false) (p : Proc) (s : St) (t : Tok) :
@@ -278,6 +285,14 @@ theorem arrive_conf (cfg : Cfg) (he : cfg.eagerSettle = false) (p : Proc) (s : S
       · simp only [spawnStarts_causes]
         intro h
         rw [enterSub_conf _ _ _ _ _ h]
+    | throw_ =>
+      simp only
+      split
+      · intro h
+        exact absurd (show (s.cause "throw_fused").causes = [] by simpa using h) (cause_ne_nil s _)
+      · intro h
+        rw [selectFlows_conf _ _ _ _ _ _ h]
+        simp [Cfg.ideal]
     | _ => simp
 
 /-! ## the abstracted functions of `Spec/TokenGame` are the engine's -/
